@@ -67,6 +67,19 @@ var requiresTable = []reqRow{
 	{"(*internal/pkg/table.ROATable).Delete", lkShared, locks.W, "ROA table is mutated only in the exclusive management context"},
 	{"(*internal/pkg/table.ROATable).DeleteAll", lkShared, locks.W, "ROA table is mutated only in the exclusive management context"},
 	{"(*pkg/server.BgpServer).getBestFromLocalCallbackLocked", lkRR, locks.R, "caller holds the peer's route-refresh lock"},
+	{"(*internal/pkg/table.Policy).Apply", lkPolicy, locks.R, "policy, statement and set objects are edited in place under the policy lock: an evaluation must see one configuration"},
+	{"(*internal/pkg/table.Statement).Apply", lkPolicy, locks.R, "policy, statement and set objects are edited in place under the policy lock: an evaluation must see one configuration"},
+}
+
+// requiresFor: the rows of requiresTable for one lock class.
+func requiresFor(lock string) []reqRow {
+	var out []reqRow
+	for _, q := range requiresTable {
+		if q.Lock == lock {
+			out = append(out, q)
+		}
+	}
+	return out
 }
 
 func (c *Ctx) ruleGuarded(rule string, rows []guardRow, min int) {
